@@ -122,6 +122,8 @@ def check(ctx, rep, cfg):
     transitions(rep, prog, ws, tag)
     drop_order(rep, prog, ws, tag)
     guard_pages(rep, prog, ws, tag)
+    lock_extent(rep, prog, tag)
+    drop_discipline(rep, prog, tag)
 
 
 def transitions(rep, prog, ws, tag):
@@ -375,3 +377,69 @@ def shape(e, depth=0):
             return "neg(%s)" % shape(e.b, depth + 1)
         return "%s(%s)" % (e.a, shape(e.b, depth + 1))
     return "?"
+
+
+LEN_CHANGERS = ("std::vec::Vec::<T, A>::resize", "types::ResizableBytes::resize", "std::vec::Vec::<T, A>::truncate",
+                "std::vec::Vec::<T, A>::push", "std::vec::Vec::<T, A>::pop", "std::vec::Vec::<T, A>::clear",
+                "std::vec::Vec::<T, A>::extend_from_slice", "std::vec::Vec::<T, A>::shrink_to_fit", "std::vec::Vec::<T, A>::shrink_to",
+                "std::vec::Vec::<T, A>::reserve", "std::vec::Vec::<T, A>::set_len")
+
+
+def lock_extent(rep, prog, tag):
+    """A region that is (or may be) locked must not change its length in place: mlock covered the old
+    extent, every later munlock/mprotect uses the current length.  Only impls whose lock-mode
+    parameter is the concrete `Unlocked` may resize the inner container in place."""
+    n = 0
+    for imp in prog.impls:
+        st = imp["self_ty"]
+        if st.get("path") != "protected::Protected" or len(st.get("args", [])) != 3:
+            continue
+        lm = st["args"][2]
+        lm_name = lm["t"].split("::")[-1] if lm.get("k") == "adt" else None
+        for it in imp["items"]:
+            f = prog.by_key.get(it["key"])
+            if f is None or f.argc < 1:
+                continue
+            for g in prog.unit(f):
+                selfv = set(g.forward_slice([1])) if g is f else set()
+                for c in g.calls():
+                    if g.blocks[c.bb]["cleanup"]:
+                        continue
+                    if c.path in LEN_CHANGERS or c.rpath in LEN_CHANGERS or (c.name in ("resize", "truncate", "shrink_to_fit") and c.args):
+                        ls = list(operand_locals(c.args[0])) if c.args else []
+                        if not ls:
+                            continue
+                        root = cm.view_info(g, ls[0])[0]
+                        on_self = root == 1 and g is f
+                        if not on_self:
+                            continue
+                        n += 1
+                        rep.ob("LOCK-EXTENT", "%s|%s%s" % (f.path, c.name, tag), lm_name == "Unlocked",
+                               "in-place %s of the region's storage in an impl with lock mode %s (only Unlocked may resize in place; "
+                               "a locked region must be re-created so that lock and unlock cover the same extent)" % (c.name, lm["t"]),
+                               loc=c.loc())
+    rep.floor("in-place length changes of protected storage" + tag, n, 1)
+
+
+def drop_discipline(rep, prog, tag):
+    """The raw storage record of a protected region is never dropped by crate code: it may only die
+    inside Protected's own Drop (unprotect -> wipe -> unlock).  A `Drop` terminator on a value of type
+    InternalData<_> / Option<InternalData<_>> (e.g. on an early-return path after moving it out of the
+    handle) would wipe read-only/no-access pages and skip munlock."""
+    bad = []
+    n = 0
+    for f in prog.fns:
+        if not any(("InternalData" in l["t"]) for l in f.locals):
+            continue
+        n += 1
+        for b in range(f.n):
+            t = f.blocks[b]["t"]
+            if t["k"] == "drop" and "InternalData<" in t.get("place_ty", "") and not t["place_ty"].startswith("&"):
+                bad.append((f, b, t["place_ty"]))
+            if t["k"] == "call":
+                c = f.call_at(b)
+                if c.path in ("std::mem::drop", "core::mem::drop", "std::mem::forget") and "InternalData<" in c.full:
+                    bad.append((f, b, c.full))
+    rep.ob("DROP-DISCIPLINE", "no crate function drops a region's storage record" + tag, not bad,
+           "%d functions handle InternalData; drops outside Protected::drop: %s" % (n, [(f.path[:60], f.loc(b)) for f, b, _ in bad][:4]),
+           loc=bad[0][0].loc(bad[0][1]) if bad else None)
